@@ -8,7 +8,9 @@ import c11
 ID = "C18"
 NEEDS_SERVER = True
 KEYS = ["a", "a/b", "a/c", "b", "g/x", "g/y/z", "w/1", "c", "é"]
-PATS = ["a/#", "a/?", "g/#", "w/?", "b"]
+PATS = ["a/#", "a/?", "g/#", "w/?", "b"]      # none of them covers a last-will key of another client (own<c>/.., lwz<c>):
+# at SIGTERM the sessions may or may not be ended one by one before the shutdown applies all registrations at once, and
+# the two orders differ exactly when one client's grave goods cover another client's last will
 gg = lambda c: f"$SYS/clients/@CID{c}@/graveGoods"
 lw = lambda c: f"$SYS/clients/@CID{c}@/lastWill"
 
@@ -33,8 +35,8 @@ def gen_case(seed):
             elif x < 0.62: ops.append(f"del {c} {xs(r.choice(KEYS))}")
             elif x < 0.66: ops.append(f"churn {c} {r.randint(2, 12)} {xs(r.choice(['a/b', 'b', 'g/x']))}")
             elif x < 0.72: ops.append(f"pdel {c} {xs(r.choice(PATS))}")
-            elif x < 0.82: ops.append(f"set {c} {xs(gg(c))} {js([r.choice(PATS) for _ in range(r.randint(0, 2))])}")
-            elif x < 0.92: ops.append(f"set {c} {xs(lw(c))} {js([{'key': r.choice(KEYS), 'value': val()} for _ in range(r.randint(0, 2))])}")
+            elif x < 0.82: ops.append(f"set {c} {xs(gg(c))} {js([r.choice(PATS + [f'own{c}/#']) for _ in range(r.randint(0, 2))])}")
+            elif x < 0.92: ops.append(f"set {c} {xs(lw(c))} {js([{'key': r.choice([f'own{c}/x', f'own{c}/y/z', f'lwz{c}']), 'value': val()} for _ in range(r.randint(0, 2))])}")
             else:
                 connected.discard(c); ops.append(f"disc {c}")
     phase(r.randint(3, 18))
@@ -101,6 +103,8 @@ def prefix_oracle(ops, lines, known=None):
                     if got[f"p/{n}"] != ("P", str(n)): return (i + 1, f"recovered p/{n} = {got[f'p/{n}']}, it was set to {n}")
                 got = {k: e for k, e in got.items() if not (k.startswith("p/") and k.count("/") == 1 and k.split("/")[1].isdigit())}
                 want = {k: e for k, e in want.items() if not (k.startswith("p/") and k.count("/") == 1)}
+                if not pkeys:
+                    continue      # nothing of the burst arrived: the cut may lie before it (a pause does not make the writer catch up under load); membership in the model's prefix set is checked by the comparison
             if set(got) != set(want) or any(got[k][:2] != want[k][:2] for k in got):
                 return (i + 1, f"recovered after {how}: {got}; held before (registrations applied): {want}")
             vdiff = [k for k in got if got[k][0] == "C" and got[k][2] != want[k][2]]
@@ -153,6 +157,8 @@ def run(v, tier, seed):
         v.violation({"what": "ReDB model and the real server disagree (the recovered state is none of the states the model allows for the cuts the writer can produce); the prefix property held on every observed trace", "case": nm, "engine": "cluster", "driver": "redb_driver",
                      "ops": ops[:step + 1], "ops_readable": [decode_tok(o) for o in ops[:step + 1]], "step": step, "impl": decode_tok(x)[:1500], "model": decode_tok(y)[:3000], "disagreeing_cases": len(diffs),
                      "broken_obligation": "correspondence cluster/C18 (Model/Redb.v actions_of / apply_all / recover / recover_tables)"}, no_input=True)
-    v.cov.update({"evaluations": len(cases), "distinct_nontrivial": len(nontrivial), "steps": nsteps, "disagreements": len(diffs), "kills": kills, "clean_restarts": stops, "cuts_observed(recovered of burst)": cuts[:40],
+    samples = [{"case": nm, "ops": [decode_tok(o) for o in ops], "observed": [decode_tok(l)[:300] for l in A.get(nm, [])]} for nm, ops in cases if nm in nontrivial][:2] or \
+              [{"case": cases[0][0], "ops": [decode_tok(o) for o in cases[0][1]], "observed": [decode_tok(l)[:300] for l in A.get(cases[0][0], [])]}]
+    v.cov.update({"evaluations": len(cases), "distinct_nontrivial": len(nontrivial), "steps": nsteps, "disagreements": len(diffs), "kills": kills, "samples": samples, "clean_restarts": stops, "cuts_observed(recovered of burst)": cuts[:40],
                   "rule": f"a standalone server (child process of the freshly built binary, WORTERBUCH_PERSISTENCE_MODE=ReDB) driven over TCP: {n} random histories of set / cset / delete / pdelete, registration and re-registration of grave goods and last wills, session ends, clean stop-and-start cycles; at the end either a clean stop, or a burst of 1..40 sets sent back to back followed 0..3 ms later by SIGKILL; then a start on the same database file and a dump (REST export); the recovered state must be one of the states the model allows -- recover(apply(prefix j of the queued actions)) for some j -- and, independently, the quiescent state with its registrations applied plus a gap-free prefix of the burst; non-trivial = the kill fell inside the burst (0 < recovered < sent)",
                   "not_covered": "where the kill lands relative to the writer is decided by the scheduler: the theorem covers every cut, the check observes the ones that occur (see cuts_observed); redb's own atomic commit is trusted; the v1->v2 table migration; the SQLite and Turso backends"})
